@@ -90,3 +90,29 @@ func (n *EventNode) Drain() []EmittedEvent {
 }
 
 func (n *EventNode) Stop(ctx context.Context) error { return n.C.Stop(ctx) }
+
+// EventStream captures the node's Events() channel once (call it before Stop,
+// which nils the field) and returns a blocking reader for a controlled
+// collector thread: next() parks the caller until the next event is emitted and
+// reports ok=false once Stop has closed the channel. Reading the fake clock
+// right after next() returns gives the simulated instant of the emission (the
+// clock cannot advance while the woken collector is runnable).
+func (n *EventNode) EventStream() (next func() (EmittedEvent, bool)) {
+	ch := n.C.Events()
+	return func() (EmittedEvent, bool) {
+		e, ok := simrt.Recv2(-105, ch)
+		if !ok || e == nil {
+			return EmittedEvent{}, false
+		}
+		ev := EmittedEvent{Type: e.Type.String()}
+		switch p := e.Payload.(type) {
+		case *cluster.NodeJoinedEvent:
+			ev.Addr = p.Address
+		case *cluster.NodeLeftEvent:
+			ev.Addr = p.Address
+		case *cluster.LeaderChangedEvent:
+			ev.Addr = p.Address
+		}
+		return ev, true
+	}
+}
